@@ -242,6 +242,11 @@ func c01ReqPath(r *Rand, sites []c01Site) string {
 		}
 	case 2: // other letter case
 		base = c01MixCase(r, base)
+	case 3: // a stray byte (often >= 0x80) inside a declared prefix, then the rest of it
+		if len(base) > 1 {
+			i := r.Range(1, len(base)-1)
+			base = base[:i] + r.Pick([]string{"\xc3", "\xa9", "\xe3\x83", "\xff", "%", "/", "\x80"}) + base[i:] + r.Pick(c01PathTails)
+		}
 	default:
 		base += r.Pick(c01PathTails)
 		if r.Chance(20) {
@@ -443,6 +448,28 @@ func c01Gen(r *Rand, tier string) []interface{} {
 		emit(sites, r.Pick(v6req), c01ReqPath(r, sites), protoOf())
 	}
 
+	// (F) default catch-all hosts next to designated fallback sites: the built-in fallback hosts are tried first,
+	// then the designated ones in declaration order; a matched host without a path prefix ends the search
+	for i := 0; i < 260*scale; i++ {
+		var sites []c01Site
+		if r.Chance(60) {
+			sites = append(sites, c01Site{Key: c01B(r.Pick([]string{":2015", "0.0.0.0:2015", "[::]:2015", "*:2015", "0.0.0.0", "*.*.*.*"}) + r.Pick([]string{"", "", "/a", "/caf\xc3\xa9"}))})
+		}
+		for _, j := range r.Perm(4)[:r.Range(1, 3)] {
+			h := []string{"fb1.example", "FB2.example", "*.fb3.example", "[::1]"}[j]
+			sites = append(sites, c01Site{Key: c01B(h + r.Pick(ports) + r.Pick([]string{"", "", "/a", "/a/b"})), Fallback: r.Chance(85)})
+		}
+		if r.Chance(40) {
+			sites = append(sites, c01Site{Key: c01B(r.Pick(hosts) + r.Pick(ports))})
+			if string(sites[len(sites)-1].Key) == "" {
+				sites[len(sites)-1].Key = ":2015"
+			}
+		}
+		sites = permuted(sites, r.Perm(len(sites)))
+		host := r.Pick([]string{"nosuch.example", "zzz", "", "x.fb3.example", "1.2.3.4", "[::2]", "fb2.EXAMPLE:80"})
+		emit(sites, host, r.Pick([]string{"/", "/a", "/a/b/c", "/b", "/caf\xc3\xa9/x"}), protoOf())
+	}
+
 	// (E) raw request-targets parsed as net/http does: percent-encoded bytes decode into URL.Path before the lookup
 	targets := []string{"/caf%C3%A9", "/caf%c3%a9/menu", "/caf%C3", "/a%20b", "/a%2Fb", "/a%252Fb", "/%E3%83%89", "/a/b?x=/a/b/c", "/a%2520b", "/caf\xc3\xa9",
 		"http://other.example/a/b", "/a/b#frag", "/%41", "/a%ZZ", "//a", "/a/./b", "/%2e%2e/a"}
@@ -466,7 +493,7 @@ func c01Gen(r *Rand, tier string) []interface{} {
 func init() {
 	register(&Property{
 		ID: "C01", Imports: "V.Lib V.GoPath V.GoNet V.C01_Model", Judge: "judge",
-		Rule:   "httpserver.NewServer + Server.ServeHTTP with a marker middleware per site that records the ordered list of sites whose handlers ran, the path_prefix context value and the trimmed path; streams: (A) mixed sets of 1-5 addresses over exact/wildcard/catch-all/IPv4/IPv6/punycode hosts x ports x mixed case x path prefixes (multi-byte UTF-8, truncated sequences, percent text), optional fallback flag, occasional repeated address, re-run permuted; (B) wildcard patterns of every depth for one name declared in EVERY order; (C) 2-5 sites sharing a host with nested byte-wise path prefixes plus a decoy host owning a longer prefix; (D) IPv6 literals with/without brackets and ports on both sides; (E) raw request-targets decoded by url.ParseRequestURI. Requests aim at declared hosts (wildcards instantiated, one label more/less, random letter case, ports) or foreign hosts; paths are declared prefixes extended/truncated/bit-flipped with arbitrary bytes; protocol major 0-3. non-trivial = at least two sites; distinct = distinct case term",
+		Rule:   "httpserver.NewServer + Server.ServeHTTP with a marker middleware per site that records the ordered list of sites whose handlers ran, the path_prefix context value and the trimmed path; streams: (A) mixed sets of 1-5 addresses over exact/wildcard/catch-all/IPv4/IPv6/punycode hosts x ports x mixed case x path prefixes (multi-byte UTF-8, truncated sequences, percent text), optional fallback flag, occasional repeated address, re-run permuted; (B) wildcard patterns of every depth for one name declared in EVERY order; (C) 2-5 sites sharing a host with nested byte-wise path prefixes plus a decoy host owning a longer prefix; (D) IPv6 literals with/without brackets and ports on both sides; (E) raw request-targets decoded by url.ParseRequestURI; (F) built-in catch-all hosts next to designated fallback sites in every mix. Requests aim at declared hosts (wildcards instantiated, one label more/less, random letter case, ports) or foreign hosts; paths are declared prefixes extended/truncated/bit-flipped with arbitrary bytes; protocol major 0-3. non-trivial = at least two sites; distinct = distinct case term",
 		Gen:    c01Gen,
 		Decode: func(raw json.RawMessage) (interface{}, error) { in := &c01In{}; return in, json.Unmarshal(raw, in) },
 		Run:    c01Run,
